@@ -11,9 +11,19 @@ import (
 func condMatches(c Cond, v int, err error) bool {
 	switch c.K {
 	case "errs":
-		return errors.Is(err, c.E)
+		for _, e := range append([]error{c.E}, c.Es...) {
+			if errors.Is(err, e) {
+				return true
+			}
+		}
+		return false
 	case "types":
-		return errTypeMatches(err, c.T)
+		for _, t := range append([]any{c.T}, c.Ts...) {
+			if errTypeMatches(err, t) {
+				return true
+			}
+		}
+		return false
 	case "result":
 		// HandleResult applies to outcomes without an error (documented on the builders)
 		return err == nil && reflect.DeepEqual(v, c.V)
@@ -29,17 +39,11 @@ func errTypeMatches(err error, target any) bool {
 	}
 	errorType := reflect.TypeOf((*error)(nil)).Elem()
 	t := reflect.TypeOf(target)
-	if t.Kind() == reflect.Ptr && !t.Implements(errorType) {
-		t = t.Elem()
-	}
-	if t.Kind() == reflect.Ptr && t.Elem().Implements(errorType) && t.Elem().Kind() != reflect.Interface {
-		// pointer to a value type that itself implements error: the documented match is on the value type too
-		if errors.As(err, reflect.New(t.Elem()).Interface()) {
-			return true
-		}
+	if t.Kind() == reflect.Ptr {
+		t = t.Elem() // ValErr{} and &ValErr{} both name the type ValErr
 	}
 	if t.Kind() != reflect.Interface && !t.Implements(errorType) {
-		t = reflect.PointerTo(t)
+		t = reflect.PointerTo(t) // implemented with pointer receivers
 	}
 	return errors.As(err, reflect.New(t).Interface())
 }
